@@ -227,7 +227,8 @@ where
         .steps_iter()
         // Note that steps_iter() yields interval lengths, but we are interested in
         // offsets. Since the length of an interval [0, A] is A+1, we need to subtract one
-        // to obtain the offset.
+        // to obtain the offset. An interval of length zero has no corresponding offset.
+        .filter(|delta| delta.is_non_zero())
         .map(Offset::closed_from_time_zero)
         .take_while(|x| *x <= Offset::from_time_zero(max_bw));
     // for each relevant offset in the search space,
